@@ -9,6 +9,7 @@ Metamorphic monitor over pairs of real executions on the same connection:
 The reference matcher is used only to certify that a neighbour does not match.
 """
 import json
+import time as _time
 
 from .. import rig as R, ref, gen, qcore, dump
 from ..orch import h
@@ -21,7 +22,9 @@ RULE = (
     "Neighbours are generated at the scanner's boundaries: kind +-1 / +256 / +65536, tag values extending or "
     "prefixing the requested value (v+NUL, v+'a', v+U+00FF, v[:-1], NUL+v), the same value under a neighbouring tag "
     "name, pubkeys and ids mined to share the first byte with a requested one, timestamps one second outside the "
-    "window and equal to a matching event's, created_at 2^32-1 and kind 2^32-1 (index-prefix boundaries). "
+    "window and equal to a matching event's, created_at 2^32-1 and kind 2^32-1 (index-prefix boundaries). Stores contain "
+    "post-dated events (created_at ahead of the relay's clock); an open window is compared with a far-future 'until'; tag "
+    "conditions are also asked with values that match nothing / cannot be index keys (lone surrogates) mixed in. "
     "Non-trivial = the base answer is non-empty and (for add/remove) at least one certified non-matching neighbour was "
     "stored, (for and/union) the related query was issued. Distinct = distinct (backend, relation, store seed, filter)."
 )
@@ -118,6 +121,35 @@ async def ask(rig, conn, f, counters):
     return {e["id"] for e in ans["events"] if isinstance(e, dict) and "id" in e}
 
 
+def _has_surrogate(f):
+    try:
+        json.dumps(f, ensure_ascii=False).encode("utf-8")
+        return False
+    except UnicodeEncodeError:
+        return True
+
+
+async def ask_any(rig, conn, f, counters):
+    """over the websocket when the filter can travel in a text frame the relay's parser takes; else
+    (lone surrogates: python-rapidjson refuses the frame, the stdlib fallback parser would not) through
+    the storage's own query entry point, as the relay's command line does"""
+    if not _has_surrogate(f):
+        return await ask(rig, conn, f, counters)
+    from .. import env
+
+    counters["direct_queries"] = counters.get("direct_queries", 0) + 1
+    env.LOGTAP.take()
+    try:
+        got = {e.id async for e in rig.storage.run_single_query([json.loads(json.dumps(f))])}
+    except Exception as e:
+        got = None
+    if got is None or any(l.get("exc") for l in env.LOGTAP.take()):
+        # the query FAILED (SQLite cannot bind a lone surrogate; the error is logged and swallowed): no answer to compare
+        counters["direct_query_errors"] = counters.get("direct_query_errors", 0) + 1
+        return None
+    return got
+
+
 async def run_store(backend, store_seed, nbases, counters, coverage, explicit=None):
     rig = R.Rig(backend=backend, config={"analysis_delay": 0})
     await rig.start()
@@ -131,6 +163,15 @@ async def run_store(backend, store_seed, nbases, counters, coverage, explicit=No
         conn = rig.connect()
         u = gen.Universe(store_seed)
         events = list(explicit["events"]) if explicit else u.store(u.rng.randint(30, 70))
+        if not explicit:
+            # post-dated copies of some events: created_at ahead of the relay's wall clock
+            now = int(_time.time())
+            for e in u.rng.sample(events, min(4, len(events))):
+                if REGULAR_OK(e["kind"]):
+                    key = next((x for x in u.keys if x.pk == e["pubkey"]), None)
+                    if key is not None:
+                        events.append(ref.make_event(key, kind=e["kind"], created_at=now + u.rng.choice([3600, 86400, 86400 * 400]), tags=e["tags"], content="post-dated"))
+                        counters["post_dated_events"] = counters.get("post_dated_events", 0) + 1
         await qcore.load_store(rig, conn, events)
         log = list(events)
         stored = dump.stored_events(dump.dump(rig))
@@ -186,10 +227,41 @@ async def run_store(backend, store_seed, nbases, counters, coverage, explicit=No
             if a3 is not None and not a3 <= a0:
                 viol("monotone/window", "shrunken window %s returned %d events not in Q(%s)" % (json.dumps(f3)[:250], len(a3 - a0), json.dumps(f)[:250]),
                      f, {"related": f3})
+            if "until" not in f:
+                # an explicit upper bound far in the future is a shrunken window as well
+                f5 = dict(f, until=u.rng.choice([2 ** 32 - 1, 2 ** 31 - 1, int(_time.time()) + 86400 * 800]))
+                a5 = await ask(rig, conn, f5, counters)
+                bump("window")
+                if a5 is not None and not a5 <= a0:
+                    viol("monotone/window/open-vs-far-until", "%s returned %d events that the same filter without 'until' does not return (created_at %s)"
+                         % (json.dumps(f5)[:250], len(a5 - a0), sorted({e["created_at"] for e in known_events(log) if e["id"] in a5 - a0})[:3]), f, {"related": f5})
             if a0:
                 nontrivial.append(h([backend, "window", store_seed, f, f3]))
             # ---- union ------------------------------------------------------------------
             multi = [k for k, v in f.items() if isinstance(v, list) and len(set(v)) > 1]
+            tagk = [k for k, v in f.items() if k.startswith("#") and isinstance(v, list) and v]
+            if tagk and a0 and u.rng.random() < 0.5:
+                # values that match nothing on their own (some cannot even be turned into an index key:
+                # half of a surrogate pair, as cut-off emoji arrive from JavaScript clients) among the others
+                k = u.rng.choice(tagk)
+                odd = u.rng.sample(["\ud83d", "\U0001f600x", "\ue000", "\udc00z", "\uffff", "zz\ud83d", "\x00"], 3)
+                vals = list(f[k]) + odd
+                u.rng.shuffle(vals)
+                fm = dict(f, **{k: vals})
+                am = await ask_any(rig, conn, fm, counters)
+                bump("union")
+                counters["union_with_unmatchable_values"] = counters.get("union_with_unmatchable_values", 0) + (am is not None)
+                if am is not None:
+                    parts, okp = set(), True
+                    for v in vals:
+                        ai = await ask_any(rig, conn, dict(f, **{k: [v]}), counters)
+                        if ai is not None:
+                            parts |= ai
+                    nontrivial.append(h([backend, "union-odd", store_seed, f, k]))
+                    if not (a0 <= am) or parts != am:
+                        viol("union/tag/with-unmatchable-value",
+                             "Q(%s) has %d events; the same filter without the values %s has %d; union over its single values has %d"
+                             % (json.dumps(fm)[:250], len(am), json.dumps(odd), len(a0), len(parts)), f, {"related": fm})
             if multi:
                 k = u.rng.choice(multi)
                 parts = set()
